@@ -163,7 +163,9 @@ class NumpyBackendProvider(BackendProvider):
             child = self._ir_to_source(ir[1])
             if child is None:
                 return None
-            return f'(-{child})'
+            # -x on an object array keeps a rank-1 array of arrays where Negate (vec_fn)
+            # rebuilds the array, so a later verb could broadcast differently: call the verb
+            return f'_kg_negate({child})'
 
         if node_type == 'reduce':
             op, arg = ir[1], ir[2]
